@@ -1173,12 +1173,14 @@ Proof. intros [A B C]. constructor; auto. Qed.
 Lemma file_index_after_ok d s1 :
   file_inv s1 -> name_ok d s1 = true ->
   (get N.eqb (d_dig d) (f_d2p s1) <> None \/ get gkey_eqb (gk d) (f_cas s1) <> None) ->
-  exists c1, file_fetch d s1 = Some c1.
+  exists c1, file_fetch d s1 = Some c1 /\ b_hash c1 = d_dig d.
 Proof.
   intros [A B C] Hn H. unfold file_fetch. rewrite Hn.
   destruct (get N.eqb (d_dig d) (f_d2p s1)) as [p|] eqn:E.
-  - destruct (A _ _ E) as (_ & c & Hc & _). eauto.
-  - destruct H as [H|H]; [congruence|]. destruct (get gkey_eqb (gk d) (f_cas s1)); [eauto|congruence].
+  - destruct (A _ _ E) as (_ & c & Hc & Hh). eauto.
+  - destruct H as [H|H]; [congruence|].
+    destruct (get gkey_eqb (gk d) (f_cas s1)) as [c|] eqn:Ec; [|congruence].
+    exists c. split; auto. apply (C _ _ Ec).
 Qed.
 
 (* the theorems about the file store exclude the aliasing name *)
@@ -1188,7 +1190,8 @@ Definition no_alias (o : op) : Prop :=
 Lemma file_index_after_inv d s1 : file_inv s1 -> file_inv (fst (file_index_after d s1)).
 Proof.
   intro H. unfold file_index_after. destruct (is_manifest (d_mt d)).
-  - destruct (file_fetch d s1); cbn [fst]; [now apply file_inv_graph | exact H].
+  - destruct (file_fetch d s1) as [c1|]; cbn [fst]; [|exact H].
+    destruct (d_dig d =? b_hash c1); cbn [fst]; [now apply file_inv_graph | exact H].
   - cbn [fst]. now apply file_inv_graph.
 Qed.
 
@@ -1198,7 +1201,7 @@ Lemma file_index_after_succeeds d s1 :
   snd (file_index_after d s1) = FO OOk.
 Proof.
   intros H Hn Hp. unfold file_index_after. destruct (is_manifest (d_mt d)); [|reflexivity].
-  destruct (file_index_after_ok d s1 H Hn Hp) as (c1 & ->). reflexivity.
+  destruct (file_index_after_ok d s1 H Hn Hp) as (c1 & -> & Hh). rewrite Hh, N.eqb_refl. reflexivity.
 Qed.
 
 Lemma file_inv_unnamed s d c' :
